@@ -6,6 +6,7 @@ package services
 // reference ("what this request must get back, computed from the request alone").
 
 import (
+	"encoding/json"
 	"fmt"
 	"math/rand"
 	"net/http"
@@ -22,13 +23,14 @@ import (
 
 // c42Svc describes one generated service. Everything it answers is a function of the request.
 type c42Svc struct {
-	Name   string   // file name and first path segment after /services/c42/
-	Vars   []string // URL-part variable names, in path order
-	Lit    bool     // a literal segment sits between the variable segments
-	Loops  int      // iterations of the local accumulation loop
-	Mult   int      // multiplier used in the loop
-	Helper bool     // the loop lives in a helper function
-	Sleep  bool     // the handler sleeps a little between reading and echoing its inputs
+	Name   string     // file name and first path segment after /services/c42/
+	Vars   []string   // URL-part variable names, in path order
+	Lit    bool       // a literal segment sits between the variable segments
+	Loops  int        // iterations of the local accumulation loop
+	Mult   int        // multiplier used in the loop
+	Helper bool       // the loop lives in a helper function
+	Sleep  bool       // the handler sleeps a little between reading and echoing its inputs
+	Blocks []c42Block // values built from struct/map/array literals with optional members (zz_verif_c42_lit_test.go)
 }
 
 func (s c42Svc) pattern() string {
@@ -49,7 +51,17 @@ func (s c42Svc) pattern() string {
 func (s c42Svc) source() string {
 	b := &strings.Builder{}
 	fmt.Fprintf(b, "@endpoint path=%q parameter=\"a:string\",\"b:string\",\"fail:string\",\"mut:string\"\n\n", s.pattern())
-	b.WriteString("import \"http\"\nimport \"fmt\"\nimport \"time\"\n\nvar hits = 0\n\n")
+	b.WriteString("import \"http\"\nimport \"fmt\"\nimport \"time\"\n")
+
+	if len(s.Blocks) > 0 {
+		b.WriteString("import \"json\"\n")
+	}
+
+	b.WriteString("\nvar hits = 0\n\n")
+
+	for k, blk := range s.Blocks {
+		b.WriteString(blk.top(k))
+	}
 
 	loop := fmt.Sprintf("    acc := seed\n    for i := 0; i < %d; i = i + 1 {\n        acc = (acc*%d + n + i) %% 1000003\n    }\n", s.Loops, s.Mult)
 	if s.Helper {
@@ -79,8 +91,28 @@ func (s c42Svc) source() string {
 	}
 
 	b.WriteString("    rep := \"\"\n    for j := 0; j < 3; j = j + 1 {\n        rep = rep + a\n    }\n")
+
+	// the literal blocks run before the point where a failing request fails: what they build must
+	// not outlive the request either way
+	for k, blk := range s.Blocks {
+		b.WriteString(blk.body(k))
+	}
 	b.WriteString("    if len(req.Parameters[\"fail\"]) > 0 {\n        zero := 0\n        acc = acc / zero\n    }\n")
 	b.WriteString("    out = out + fmt.Sprintf(\"a=%s|b=%s|box=%s/%s|user=%s|_user=%s|body=%s|acc=%d|rep=%s|hits=%d|method=%s|auth=%v\", a, bp, box[\"a\"], box[\"who\"], who, _user, body, acc, rep, hits, req.Method, req.Authenticated)\n")
+
+	// every block's value as JSON (compared with the reference), then, after "|#|", the same values
+	// as the formatter prints them (compared only with the same request served alone)
+	for k := range s.Blocks {
+		fmt.Fprintf(b, "    j%d, _ := json.Marshal(L%d)\n    out = out + \"|L%d=\" + string(j%d)\n", k, k, k, k)
+	}
+
+	if len(s.Blocks) > 0 {
+		b.WriteString("    out = out + \"|#\"\n")
+	}
+
+	for k := range s.Blocks {
+		fmt.Fprintf(b, "    out = out + fmt.Sprintf(\"|F%d=%%v\", L%d)\n", k, k)
+	}
 
 	if len(s.Vars) > 0 {
 		fmt.Fprintf(b, "    if len(req.Parameters[\"mut\"]) > 0 {\n        %s = fmt.Sprintf(\"%%v\", req.Parameters[\"mut\"][0])\n    }\n", s.Vars[0])
@@ -108,7 +140,40 @@ func (q c42Req) describe(s c42Svc) string {
 	return fmt.Sprintf("%s %s vals=%v a=%s b=%s user=%s body=%s fail=%v mut=%s", q.Method, s.pattern(), q.Vals, q.A, q.B, q.User, q.Body, q.Fail, q.Mut)
 }
 
-// c42Expect is the reference: the body and status the service must produce for q (no fail).
+// c42Head is the part of a response body the reference describes: everything before the "|#"
+// separator (after it the literal blocks are printed once more by Ego's own formatter, whose
+// text the reference does not predict; that part is compared with the request served alone).
+func c42Head(body string) string {
+	if i := strings.Index(body, "|#"); i >= 0 {
+		body = body[:i]
+	}
+
+	if !strings.Contains(body, "|L") {
+		return body
+	}
+
+	// the L<k>=<json> fields: Ego's json.Marshal writes the keys of some objects sorted and of
+	// others in insertion order; the reference is about the VALUE, so re-encode it canonically
+	fields := strings.Split(body, "|")
+
+	for i, f := range fields {
+		j := strings.Index(f, "=")
+		if j < 2 || f[0] != 'L' || f[1] < '0' || f[1] > '9' {
+			continue
+		}
+
+		var v any
+
+		if json.Unmarshal([]byte(f[j+1:]), &v) == nil {
+			text, _ := json.Marshal(v)
+			fields[i] = f[:j+1] + string(text)
+		}
+	}
+
+	return strings.Join(fields, "|")
+}
+
+// c42Expect is the reference: the body (up to "|#") and status the service must produce for q (no fail).
 func c42Expect(s c42Svc, q c42Req) (int, string) {
 	out := ""
 	for i, v := range s.Vars {
@@ -125,6 +190,10 @@ func c42Expect(s c42Svc, q c42Req) (int, string) {
 	out += fmt.Sprintf("a=%s|b=%s|box=%s/%s|user=%s|_user=%s|body=%s|acc=%d|rep=%s|hits=1|method=%s|auth=true",
 		q.A, q.B, q.A, q.User, q.User, q.User, q.Body, acc, q.A+q.A+q.A, q.Method)
 
+	for k, blk := range s.Blocks {
+		out += fmt.Sprintf("|L%d=%s", k, blk.expect(q))
+	}
+
 	return 200 + n%7, out
 }
 
@@ -137,8 +206,14 @@ func c42GenSvc(r *rand.Rand, name string) c42Svc {
 		vars = append(vars, names[i])
 	}
 
-	return c42Svc{Name: name, Vars: vars, Lit: r.Intn(3) == 0, Loops: []int{0, 5, 60, 400, 2500}[r.Intn(5)],
+	s := c42Svc{Name: name, Vars: vars, Lit: r.Intn(3) == 0, Loops: []int{0, 5, 60, 400, 2500}[r.Intn(5)],
 		Mult: 3 + r.Intn(90), Helper: r.Intn(2) == 0, Sleep: r.Intn(4) == 0}
+
+	for k := []int{0, 1, 1, 2, 3}[r.Intn(5)]; k > 0; k-- {
+		s.Blocks = append(s.Blocks, c42GenBlock(r))
+	}
+
+	return s
 }
 
 func c42GenReq(r *rand.Rand, svcs []c42Svc, svc int, marker string) c42Req {
@@ -150,8 +225,14 @@ func c42GenReq(r *rand.Rand, svcs []c42Svc, svc int, marker string) c42Req {
 		q.Vals = append(q.Vals, pad("V"))
 	}
 
-	if q.Method == "GET" && r.Intn(2) == 0 {
+	// the optional members of the literal blocks are set from the body and from b: leave each out
+	// in a third of the requests, so that requests that set them are followed by requests that do not
+	if r.Intn(3) == 0 || (q.Method == "GET" && r.Intn(2) == 0) {
 		q.Body = ""
+	}
+
+	if r.Intn(3) == 0 {
+		q.B = ""
 	}
 
 	return q
